@@ -25,6 +25,9 @@ func c05Cells(tier string) []Cell {
 		progs = append(progs, [][]GOp{{{Key: 0}, {Key: 0}}, {{Key: 0}, {Key: 0}}, {{Key: 0}}})
 	}
 
+	// one caller's context is cancelled before its Get (a failure under such a context is a failure all the same)
+	progs = append(progs, [][]GOp{{{Key: 0, CBef: true}}, {{Key: 0}}}, [][]GOp{{{Key: 0, CBef: true}}, {{Key: 0}}, {{Key: 0}}})
+
 	for front := 0; front < 3; front++ {
 		for bits := 0; bits < 8; bits++ {
 			for _, init := range []string{"A", "S", "T", "F"} {
@@ -87,7 +90,7 @@ func c05FT(cfg FCfg) time.Duration {
 }
 
 func c05Alphabet(ft int) []string {
-	return []string{"Get(ok)", "Get(fail)", "Advance(1s)", "Advance(FT*0.95-16ns)", "Advance(FT*1.05+1ns)", "ExpireAll(backend)"}
+	return []string{"Get(ok)", "Get(fail)", "Advance(1s)", "Advance(FT*0.95-16ns)", "Advance(FT*1.05+1ns)", "ExpireAll(backend)", "Get(fail, caller context already cancelled)"}
 }
 
 func c05Burst(cfg FCfg, env *Env) CellResult {
@@ -176,18 +179,28 @@ func c05Window(cfg FCfg, env *Env) CellResult {
 
 			for _, o := range seq {
 				switch o {
-				case 0, 1:
+				case 0, 1, 6:
 					h.cfg.Script = "o"
-					if o == 1 {
+					if o != 0 {
 						h.cfg.Script = "f"
+					}
+
+					gctx := context.Background()
+
+					if o == 6 {
+						// the statement's "after a builder failure" does not depend on why the caller stopped caring
+						c, cancel := context.WithCancel(gctx)
+						cancel()
+
+						gctx = c
 					}
 
 					nb := h.nbuild[0]
 					key := append([]byte(nil), h.keys[0]...)
-					t, isNil, _, err := h.front.Get(context.Background(), key, h.builder(0))
+					t, isNil, _, err := h.front.Get(gctx, key, h.builder(0))
 					vsched.Join()
 
-					e := c05Ev{op: ops[o], at: vclock.NowQuiet(), built: h.nbuild[0] > nb, failed: o == 1 && h.nbuild[0] > nb}
+					e := c05Ev{op: ops[o], at: vclock.NowQuiet(), built: h.nbuild[0] > nb, failed: o != 0 && h.nbuild[0] > nb}
 
 					switch {
 					case err != nil:
@@ -331,11 +344,11 @@ func init() {
 		ID: "C05", Title: "Build economy: SyncRead single-flight and cached failures suppress rebuilds",
 		Cells: c05Cells, Run: c05Run,
 		Rule: "(a,c) SyncRead bursts: 2-3 threads x 1-2 Gets on one key in state {absent, stale, too stale, fresh}, builder ok / failing, SU x FH x MS x 3 front-ends, all schedules within the bound: exactly one (successful / failing) build per burst; " +
-			"(b) all sequences of <=4 (quick) / <=5 (thorough) operations over {Get(ok), Get(fail), Advance 1s, Advance FT*0.95-1ns, Advance FT*1.05+1ns} for FailedUpdateTTL {20s, 5s, -1} with the jitter answer at both extremes and the middle: " +
+			"(b) all sequences of <=4 (quick) / <=5 (thorough) operations over {Get(ok), Get(fail), Get(fail) under an already cancelled caller context, Advance 1s, Advance FT*0.95-1ns, Advance FT*1.05+1ns, ExpireAll(backend)} for FailedUpdateTTL {20s, 5s, -1} with the jitter answer at both extremes and the middle: " +
 			"no builder entry before t_fail + FT*(1-J/2), same error inside the window, rebuild on every Get with FT=-1",
 		Assumptions: []string{
 			"a burst happens at one virtual instant, so the built result stays fresh for its whole duration",
-			"contexts carrying a TTL or SkipRead are outside the statement's quantifier and are not used here",
+			"contexts carrying a TTL or SkipRead are outside the statement's quantifier and are not used here; cancelled caller contexts are (bursts and window sequences)",
 			"quick: preemption bound 2; thorough: unbounded with happens-before caching (safety cap 5M executions per cell, reported if hit)",
 		},
 	})
